@@ -229,6 +229,8 @@ pub fn minimise(scn: &Scn, class: &str, cap: u64, budget: usize) -> Scn {
             Box::new(|s| s.s2c.peek_every = 0),
             Box::new(|s| s.c2s.try_write = false),
             Box::new(|s| s.s2c.try_write = false),
+            Box::new(|s| s.c2s.write_pause = 0),
+            Box::new(|s| s.s2c.write_pause = 0),
             Box::new(|s| s.c2s.write_delay = 0),
             Box::new(|s| s.s2c.write_delay = 0),
             Box::new(|s| s.c2s.explicit_shutdown = true),
